@@ -21,7 +21,7 @@ def ct_setup(ctx):
     valid_string = ctx.choose(2, "typehint-admits-str") == 1
     default_kind = ctx.choose(3, "default:none/class-spec/a-number")
     default_is_spec = default_kind == 1
-    cfg_prev = ["no-cfg", "cfg-with-previous-value", "cfg-without"][ctx.choose(3, "cfg")]
+    cfg_prev = ["no-cfg", "cfg-with-previous-value", "cfg-without", "empty-cfg(a falsy Namespace: nothing parsed so far)"][ctx.choose(4, "cfg")]
     text = "-" if orig_kind == "dash" else z3.String("value")
     orig = {"text": text, "dash": text, "dict-object": {"a": 1}, "int-object": z3.Int("value")}[orig_kind]
     config_path = Rec("Path", attrs={"tag": "config file"}) if loaded_kind in ("dict-from-config-file", "list-from-config-file") else None
@@ -64,7 +64,7 @@ def ct_setup(ctx):
 
     cfg = None
     if cfg_prev != "no-cfg":
-        cfg = Rec("Namespace", methods={"get": lambda c, s_, a, k: prev_in_cfg if cfg_prev == "cfg-with-previous-value" else None})
+        cfg = Rec("Namespace", methods={"get": lambda c, s_, a, k: prev_in_cfg if cfg_prev == "cfg-with-previous-value" else None}, truthy=not cfg_prev.startswith("empty-cfg"))
     self = Rec("ActionTypeHint", attrs={"_enable_path": enable_path, "default": default_obj, "dest": "model", "_typehint": Rec("hint"), "logger": Rec("Logger"), "sub_add_kwargs": {}},
                methods={"_is_valid_string": lambda c, s_, a, k: valid_string and (isinstance(a[0], str) or (is_z3(a[0]) and a[0].sort() == z3.StringSort()))})
     calls = {
